@@ -13,6 +13,7 @@
   No imports outside ASV.Model / ASV.Generated.
 -/
 import ASV.Model.Loc
+import ASV.Model.LocString
 import ASV.Generated.Ids
 namespace ASV.Ids
 open ASV.Generated.Ids
@@ -143,6 +144,7 @@ structure Rec where
   name : Str
   orig : Option Str      -- original_id
   index : Nat            -- record_index (1-based)
+  acc : Option Str := none   -- record.annotations.get("accession")
   deriving DecidableEq, Repr
 
 /-- `s[-2]` -/
@@ -193,6 +195,13 @@ def fixName (allowLong : Bool) (r : Rec) : Str :=
 def fixOrig (r : Rec) (newId : Str) : Option Str :=
   if !origSet r.orig && r.id != newId then some r.id else r.orig
 
+/-- `if 'accession' in record.annotations and len(record.annotations['accession']) > 16:
+    record.annotations['accession'] = _shorten_ids(acc)` (not guarded by `allow_long_names`) -/
+def fixAcc (r : Rec) : Option Str :=
+  match r.acc with
+  | some a => if a.length > 16 then some (shortenIds r.index a) else some a
+  | none => none
+
 /-- `fix_record_name_id(record, all_record_ids, allow_long_names)` returning the altered record
     and set -/
 def fixRecordNameId (allowLong : Bool) (taken : List Str) (r : Rec) : Except Err (Rec × List Str) :=
@@ -202,7 +211,7 @@ def fixRecordNameId (allowLong : Bool) (taken : List Str) (r : Rec) : Except Err
     match stripStep allowLong taken1 id1 with
     | .error e => .error e
     | .ok (id2, taken2) =>
-      .ok ({ r with id := id2, name := fixName allowLong r, orig := fixOrig r id2 }, taken2)
+      .ok ({ r with id := id2, name := fixName allowLong r, orig := fixOrig r id2, acc := fixAcc r }, taken2)
 
 /-! ### pre_process_sequences, identifier part -/
 
@@ -239,9 +248,9 @@ def fixAll (allowLong : Bool) : List Str → List Rec → Except Err (List Rec)
       | .ok out => .ok (r' :: out)
 
 /-- records as read: `record_index = i + 1`, `original_id = None` -/
-def mkRecs (start : Nat) : List (Str × Str) → List Rec
+def mkRecs (start : Nat) : List (Str × Str × Option Str) → List Rec
   | [] => []
-  | (i, n) :: rest => ⟨i, n, none, start⟩ :: mkRecs (start + 1) rest
+  | (i, n, a) :: rest => ⟨i, n, none, start, a⟩ :: mkRecs (start + 1) rest
 
 /-- the uniqueness block: `all_record_ids` and the (possibly renamed) records -/
 def uniquePass (recs : List Rec) : Except Err (List Rec × List Str) :=
@@ -257,8 +266,8 @@ def checkNames (recs : List Rec) : Except Err (List Rec) :=
   if recs.any (·.id.isEmpty) then .error .noName else .ok recs
 
 /-- the identifier handling of `pre_process_sequences` (with `checking_required`): input
-    `(id, name)` per record in file order -/
-def preProcessIds (allowLong : Bool) (inp : List (Str × Str)) : Except Err (List Rec) :=
+    `(id, name, accession annotation)` per record in file order -/
+def preProcessIds (allowLong : Bool) (inp : List (Str × Str × Option Str)) : Except Err (List Rec) :=
   match uniquePass (mkRecs 1 inp) with
   | .error e => .error e
   | .ok (recs1, taken) =>
@@ -296,7 +305,6 @@ inductive GErr where
   | noIdentifier   -- ValueError: CDSFeature requires at least one of …
   | dupLocation    -- SecmetInvalidInputError: Multiple CDS features have the same location
   | dupName        -- SecmetInvalidInputError: multiple CDS features have the same name for mapping
-  | assertion      -- assert cds_feature.get_name() not in self._cds_by_name
   deriving DecidableEq, Repr
 
 /-- the part of a `Record` the gene-name handling reads and writes: the CDS features added so
@@ -307,15 +315,43 @@ structure GState where
   genes : List (Str × Loc) := []
 
 def GState.cdsByName (s : GState) (n : Str) : Option Loc := (s.cdss.find? (·.1 == n)).map (·.2)
-def GState.hasLocation (s : GState) (l : Loc) : Bool := s.cdss.any (·.2 == l)
+/-- `str(cds_feature.location) in self._cds_by_location` (the key is the textual form) -/
+def GState.hasLocation (s : GState) (l : Loc) : Bool := s.cdss.any (locChars ·.2 == locChars l)
+
+/-! #### `_location_checksum`: `f"{zlib.crc32(str(location).encode("utf-8")):x}"` -/
+
+/-- one bit of the reflected CRC-32 (polynomial 0xEDB88320) -/
+def crcBit (crc : Nat) : Nat := if crc % 2 == 1 then (crc >>> 1) ^^^ 0xEDB88320 else crc >>> 1
+
+def crcByte (crc byte : Nat) : Nat :=
+  crcBit (crcBit (crcBit (crcBit (crcBit (crcBit (crcBit (crcBit (crc ^^^ byte))))))))
+
+/-- `zlib.crc32(bytes)` -/
+def crc32 (bytes : List Nat) : Nat := (bytes.foldl crcByte 0xFFFFFFFF ^^^ 0xFFFFFFFF) &&& 0xFFFFFFFF
+
+/-- `str.encode("utf-8")` -/
+def utf8 (s : Str) : List Nat := s.flatMap fun c => (String.utf8EncodeChar c).map (·.toNat)
+
+def hexChar (d : Nat) : Char := if d < 10 then Char.ofNat (48 + d) else Char.ofNat (87 + d)
+
+/-- most significant digit first; `fuel` digits at most -/
+def hexAux : Nat → Nat → Str → Str
+  | 0, _, acc => acc
+  | fuel + 1, n, acc => if n / 16 = 0 then hexChar (n % 16) :: acc else hexAux fuel (n / 16) (hexChar (n % 16) :: acc)
+
+/-- `f"{n:x}"` for `n < 2^32` -/
+def toHex (n : Nat) : Str := hexAux 8 n []
+
+/-- `_location_checksum(feature)` -/
+def locationChecksum (l : Loc) : Str := toHex (crc32 (utf8 (locChars l)))
 
 /-- `Record.add_gene` (name index only) -/
 def addGene (s : GState) (name : Str) (loc : Loc) : GState := { s with genes := s.genes ++ [(name, loc)] }
 
-/-- `Record.add_cds_feature` for a feature with a translation; `checksum` is
-    `_location_checksum(cds_feature)` (hex crc32 of `str(location)`, supplied by the caller).
+/-- `Record.add_cds_feature` for a feature with a translation (repaired, D60: a renamed splice
+    variant whose generated name is taken is rejected with the same input error, not by `assert`).
     Returns the new state and the name the feature ended up with. -/
-def addCds (s : GState) (c : Cds) (checksum : Str) : Except GErr (GState × Str) :=
+def addCds (s : GState) (c : Cds) : Except GErr (GState × Str) :=
   match c.getName with
   | none => .error .noIdentifier      -- (raised by the constructor already)
   | some name =>
@@ -328,24 +364,71 @@ def addCds (s : GState) (c : Cds) (checksum : Str) : Except GErr (GState × Str)
                 (s.genes.filter (·.1 == name)).any fun g => ASV.locationsOverlap c.loc g.2) then .error .dupName
       else
         -- locus_tag is truthy here, so get_name() is the new locus_tag
-        let new := name ++ '_' :: checksum
-        if (s.cdsByName new).isSome then .error .assertion
+        let new := name ++ '_' :: locationChecksum c.loc
+        if (s.cdsByName new).isSome then .error .dupName
         else .ok ({ s with cdss := s.cdss ++ [(new, c.loc)] }, new)
 
 /-- one call on the record: `add_gene(Gene(loc, locus_tag=name))` or
-    `add_cds_feature(CDSFeature(loc, locus_tag=…, gene=…, protein_id=…))` with the location checksum -/
+    `add_cds_feature(CDSFeature(loc, locus_tag=…, gene=…, protein_id=…))` -/
 inductive GOp where
   | gene (name : Str) (loc : Loc)
-  | cds (loc : Loc) (locusTag gene proteinId : Option Str) (checksum : Str)
+  | cds (loc : Loc) (locusTag gene proteinId : Option Str)
 
 /-- a rejected call raises before the record is modified -/
 def applyOp (s : GState) : GOp → GState
   | .gene name loc => addGene s name loc
-  | .cds loc lt g p chk =>
-    match addCds s (mkCds loc lt g p) chk with
+  | .cds loc lt g p =>
+    match addCds s (mkCds loc lt g p) with
     | .ok (s', _) => s'
     | .error _ => s
 
 def runOps (s : GState) (ops : List GOp) : GState := ops.foldl applyOp s
+
+/-! ### reading a record: `Record.from_biopython` → `CDSFeature.from_biopython` / `Gene.from_biopython` -/
+
+/-- a biopython `gene` or `CDS` feature: location and the qualifiers that carry identifiers
+    (`none` = qualifier absent) -/
+structure BioFeat where
+  isCds : Bool
+  loc : Loc
+  locusTag : Option Str := none
+  gene : Option Str := none
+  proteinId : Option Str := none
+  pseudo : Bool := false       -- a `pseudo` or `pseudogene` qualifier is present
+
+/-- `pop_locus_qualifier(qualifiers, allow_missing=True, default=None)`: missing or empty → None,
+    otherwise the value with the blanks (inserted by biopython at line breaks) removed -/
+def popLocus : Option Str → Option Str
+  | none => none
+  | some s => if s.isEmpty then none else some (s.filter (· != ' '))
+
+/-- `"cds%d_%d" % (start, end)` / `"pseudo%d_%d"` / `f"gene{start}_{end}"` -/
+def positionalName (pre : Str) (l : Loc) : Str := pre ++ intChars l.start ++ '_' :: intChars l.end
+
+/-- the `CDSFeature` that `CDSFeature.from_biopython` builds (identifier part): a feature without
+    any identifier is named after its position -/
+def cdsOfBio (f : BioFeat) : Cds :=
+  let lt := popLocus f.locusTag
+  let gene := if truthy f.gene || truthy f.proteinId || truthy lt then f.gene
+              else some (positionalName (if f.pseudo then "pseudo".toList else "cds".toList) f.loc)
+  mkCds f.loc lt gene f.proteinId
+
+/-- `Gene.from_biopython(...).get_name()` -/
+def geneNameOfBio (f : BioFeat) : Str :=
+  let locus := popLocus f.locusTag
+  let name := if truthy f.gene then f.gene else none          -- `pop("gene", [""])[0] or None`
+  let name := if truthy locus || truthy name then name else some (positionalName "gene".toList f.loc)
+  if truthy locus then locus.getD [] else name.getD []
+
+/-- the feature loop of `Record.from_biopython` for gene / CDS features: the first
+    `SecmetInvalidInputError` rejects the whole record -/
+def fromBiopython : GState → List BioFeat → Except GErr GState
+  | s, [] => .ok s
+  | s, f :: fs =>
+    if f.isCds then
+      match addCds s (cdsOfBio f) with
+      | .error e => .error e
+      | .ok (s', _) => fromBiopython s' fs
+    else fromBiopython (addGene s (geneNameOfBio f) f.loc) fs
 
 end ASV.Ids
